@@ -116,6 +116,9 @@ cdef class LegacyRecordBatch:
             unsigned long crc = 0
             char * buf
 
+        if self._buffer.len < MAGIC_OFFSET:
+            # the buffer was replaced by a (short) decompressed payload
+            return False
         buf = <char*> self._buffer.buf
         cutil.calc_crc32(
             0,
@@ -159,8 +162,15 @@ cdef class LegacyRecordBatch:
             Py_ssize_t length = 0
             char* buf
         buf = <char*> self._buffer.buf
+        if buffer_len == 0:
+            raise CorruptRecordException("Empty compressed message")
         while pos < buffer_len:
+            self._check_bounds(pos, LOG_OVERHEAD)
             length = <Py_ssize_t> hton.unpack_int32(&buf[pos + LENGTH_OFFSET])
+            if length < 0:
+                raise CorruptRecordException(
+                    "Negative message size {} in compressed message"
+                    .format(length))
             pos += LOG_OVERHEAD + length
         if pos > buffer_len:
             raise CorruptRecordException("Corrupted compressed message")
@@ -171,7 +181,7 @@ cdef class LegacyRecordBatch:
             self, Py_ssize_t pos, Py_ssize_t size) except -1:
         """ Confirm that the slice is not outside buffer range
         """
-        if pos + size > self._buffer.len:
+        if size < 0 or size > self._buffer.len - pos:
             raise CorruptRecordException(
                 "Can't read {} bytes from pos {}".format(size, pos))
 
@@ -222,6 +232,7 @@ cdef class LegacyRecordBatch:
         else:
             key = None
         # Read value
+        self._check_bounds(pos, VALUE_LENGTH)
         read_size = <Py_ssize_t> hton.unpack_int32(&buf[pos])
         pos += VALUE_LENGTH
         if read_size != -1:
